@@ -18,7 +18,7 @@ ACCESSOR_LABEL = {
     "<NaiveTime as Timelike>::hour": "hour", "<NaiveTime as Timelike>::minute": "minute",
     "<NaiveTime as Timelike>::second": "second", "<NaiveTime as Timelike>::nanosecond": "nanosecond",
     "FixedOffset::local_minus_utc": "offset_seconds_east", "Weekday::number_from_monday": "weekday_from_monday_1",
-    "Month::number_from_month": "month_1", "Tz::name": "tz_name", "Uuid::into_bytes": "uuid_bytes", "Uuid::as_bytes": "uuid_bytes",
+    "Month::number_from_month": "month_1", "Tz::name": "tz_name", "Uuid::into_bytes": "uuid_bytes", "Uuid::as_bytes": "uuid_bytes", "Uuid::as_u128": "uuid_u128",
     "<u8 as From<bool>>::from": "bool01",
     "<T as ToString>::to_string": "decimal_text", "<BigInt as ToBytes>::to_be_bytes": "signed_be_bytes",
     "BigInt::to_signed_bytes_be": "signed_be_bytes",
@@ -37,7 +37,7 @@ CTOR_LABEL = {
     ("TimeZone::from_local_datetime", 1): "local_datetime", ("TimeZone::from_local_datetime", 0): "offset",
     ("TimeZone::from_utc_datetime", 1): "utc_datetime", ("TimeZone::from_utc_datetime", 0): "tz",
     ("i8::checked_sub", 0): "weekday_from_monday_1", ("FromPrimitive::from_i8", 0): "month_1",
-    ("<Tz as FromStr>::from_str", 0): "tz_name", ("Uuid::from_bytes", 0): "uuid_bytes", ("str::parse", 0): "decimal_text",
+    ("<Tz as FromStr>::from_str", 0): "tz_name", ("Uuid::from_bytes", 0): "uuid_bytes", ("Uuid::from_u128", 0): "uuid_u128", ("str::parse", 0): "decimal_text",
     ("BigInt::from_signed_bytes_be", 0): "signed_be_bytes", ("char::decode_utf16", 0): "utf16_unit",
     ("char::from_u32", 0): "utf16_unit",      # for a 16-bit argument: None exactly on the surrogate range, like decode_utf16
 }
@@ -137,7 +137,8 @@ def writer_paths(body, crate):
             if c[3].startswith(W_PREFIX):
                 ev.append(("w", c[3][len(W_PREFIX):], c[5][1] if len(c[5]) > 1 else None))
             elif c[3] == "BinarySerializer::serialize":
-                ev.append(("sub", _sub_type(c), c[5][0]))
+                if _sub_type(c) != "()":             # the unit codec writes nothing: `().serialize(ctx)` is no item
+                    ev.append(("sub", _sub_type(c), c[5][0]))
             elif c[2] == "serialize_iterator":
                 ev.append(("seqw", c[5][0], c[6]))
             elif c[3] == "Iterator::next" and p.outcome[0] == "loopback":
@@ -174,7 +175,8 @@ def reader_paths(body, crate, inline=()):
             elif c[3] == "BinaryInput::skip":
                 ev.append(("skip", c[5][1], c[1]))
             elif c[3] == "BinaryDeserializer::deserialize":
-                ev.append(("sub", _sub_type(c), c[1]))
+                if _sub_type(c) != "()":
+                    ev.append(("sub", _sub_type(c), c[1]))
             elif c[2] == "deserialize_iterator":
                 ev.append(("seqr", c[1], c[6]))
             elif c[2] in ("AdtDeserializer::read_field", "AdtDeserializer::read_optional_field"):
@@ -414,6 +416,9 @@ def _bmp_unit(t):
         return True
     if t[0] == "cast" and t[1] == "IntToInt" and t[3] == "u16" and _char_code(t[4]):
         return True
+    if t[0] == "cast" and t[1] == "IntToInt" and t[2] == "char" and t[3] == "u16":
+        x = strip_refs(t[4])
+        return x[0] == "arg" and x[1] == 1              # `*self as u16` (G11 checks the guard)
     return False
 
 
@@ -433,6 +438,9 @@ def flatten(items, depth=0):
             out.append(("w", x[1], ("label", x[2] or "self")))
         elif x[0] == "sub" and x[1] in ("String", "str") and x[2] is None:
             out.extend([("w", "var_i32", ("len", "utf8")), ("w", "bytes", ("payload", "utf8"))])
+        elif x[0] == "sub" and x[1] == "Vec<u8>" and x[2] is not None:
+            # a labelled byte vector handed to the Vec<u8> codec == its byte form written in place
+            out.extend([("w", "var_u32", ("len", "self")), ("w", "bytes", ("label", x[2]))])
         elif x[0] == "sub" and x[1] in COMPOSITE_SUBS and x[2] is not None and depth < 3:
             # a nested codec with a single, tag-free layout is the same as writing its parts: delegating DateTime<Local>
             # to the NaiveDateTime codec == writing the date and the time of the same local datetime
@@ -450,13 +458,72 @@ def flatten(items, depth=0):
     return out
 
 
-COMPOSITE_SUBS = ("NaiveDateTime",)
+COMPOSITE_SUBS = ("NaiveDateTime", "NaiveDate", "NaiveTime")
 
 
 EQUIVALENT_GRAMMARS = {
+    # the 16 bytes of a Uuid are its big-endian u128 (Uuid::as_u128 / from_u128 are defined that way)
+    "Uuid": [[[("w", "u128", ("label", "uuid_u128"))]]],
     # bool: two constant paths, or one path writing the 0/1 image of the value
     "bool": [[[("w", "u8", ("const", 1))], [("w", "u8", ("const", 0))]], [[("w", "u8", ("label", "bool01"))]]],
 }
+
+
+# enumerations of chrono written as a number: the numbering the accessor in the FORMAT entry yields, spelled out, so that an
+# explicit `match self { Weekday::Mon => 1, .. }` can be checked against it
+ENUM_TABLES = {
+    "Weekday": ("i8", {"Mon": 1, "Tue": 2, "Wed": 3, "Thu": 4, "Fri": 5, "Sat": 6, "Sun": 7}),
+    "Month": ("i8", {"January": 1, "February": 2, "March": 3, "April": 4, "May": 5, "June": 6, "July": 7, "August": 8,
+                     "September": 9, "October": 10, "November": 11, "December": 12}),
+}
+
+
+def _enum_table_writer(b, core, s):
+    kind, table = ENUM_TABLES[s]
+    seen = set()
+    for ev, p in writer_paths(b, core):
+        if p.outcome[0] != "return":
+            continue
+        v = None
+        for a in p.atoms():
+            c = a[1]
+            if c[0] == "discr" and strip_refs(c[1])[0] == "arg" and strip_refs(c[1])[1] == 1:
+                v = walk.atom_variant(a)
+        ws = [e for e in ev if e[0] in ("w", "sub")]
+        if v is None or len(ws) != 1:
+            return False
+        k = _const(ws[0][2])
+        if k is None or (ws[0][1] if ws[0][0] == "w" else _norm_sub(ws[0][1])) != kind or (k - 256 if k > 127 else k) != table.get(v):
+            return False
+        seen.add(v)
+    return seen == set(table)
+
+
+def _enum_table_reader(core, s):
+    kind, table = ENUM_TABLES[s]
+    rb = core.find("<%s as BinaryDeserializer>::deserialize" % s)
+    if rb is None:
+        return False
+    inv = {v: k for k, v in table.items()}
+    seen = set()
+    for p in walk.walk(rb, core):
+        kind_, what = outcome_of(p)
+        if kind_ != "ok":
+            continue
+        ret = strip_refs(what)
+        inner = strip_refs(ret[4][0]) if ret[0] == "agg" and ret[3] == "Ok" and ret[4] else None
+        if inner is None or inner[0] != "agg":
+            # accessor-based reader (from_i8 / try_from ..): decided by the label check of G2
+            return True
+        k = None
+        for a in p.atoms():
+            c = a[1]
+            if c[0] not in ("discr", "bin", "un", "call") and "BinaryDeserializer" in show(c) and isinstance(a[2], int):
+                k = a[2] - 256 if a[2] > 127 else a[2]
+        if k is None or inv.get(k) != inner[3]:
+            return False
+        seen.add(inner[3])
+    return seen == set(table)
 
 
 def writers_conform(an, rep, features="default"):
@@ -491,6 +558,8 @@ def writers_conform(an, rep, features="default"):
         wants = [FORMAT[s]] + EQUIVALENT_GRAMMARS.get(s, [])
         wants = [[flatten([(x[0], x[1], x[2]) for x in alt]) for alt in w] for w in wants]
         okk = any(sorted(map(repr, got)) == sorted(map(repr, w)) for w in wants)
+        if not okk and s in ENUM_TABLES:
+            okk = _enum_table_writer(b, core, s) and _enum_table_reader(core, s)
         R.check(okk, key, "grammar", "writer emits %s; the format prescribes %s" %
                 (got, wants[0]), mir.loc(b, 0), sample={"type": s, "grammar": repr(wants[0])})
     R.floor("leaf / composite writers checked", n, {"default": 48, "none": 34, "bigdecimal": 36, "chrono_bigdecimal": 47, "uuid": 35}.get(features, 25))
@@ -1075,8 +1144,10 @@ def char_codec(an, rep):
                 continue
             tv = guards.truth(a[2])
             s_ = show(c)
-            if "encode_utf16" in s_ and c[1] in ("Eq", "Ne") and _const(c[3]) == 1:
-                one_unit = tv if c[1] == "Eq" else not tv
+            if ("encode_utf16" in s_ or "char::len_utf16" in s_) and c[1] in ("Eq", "Ne") and _const(c[3]) == 1:
+                one_unit = tv if c[1] == "Eq" else not tv          # one UTF-16 unit  <=>  code <= 0xFFFF
+            elif "char::len_utf16" in s_ and c[1] in ("Lt", "Ge") and _const(c[3]) == 2:
+                one_unit = tv if c[1] == "Lt" else not tv
             elif "as u32" in s_ or "as u16" in s_ or "$self" in s_:
                 k = _const(c[3])
                 if k is not None:
